@@ -62,6 +62,8 @@ type Program struct {
 	selftest      []map[string]interface{}
 	benign        []map[string]interface{}
 	engineTest    *engineResult
+	conformanceNote string
+	quickAudits   []map[string]interface{}
 	groundDone    bool
 	groundObls    []*Obligation
 	listFacts     map[string]bool
